@@ -41,7 +41,7 @@ try:
             open(p, "w").write(s.replace(a.old, a.new, a.count))
     here = os.path.dirname(os.path.dirname(os.path.abspath(__file__)))
     for c in a.checks:
-        env = dict(os.environ, VERIF_REPO=wt, VERIF_SEED=a.seed)
+        env = dict(os.environ, VERIF_REPO=wt, VERIF_SEED=a.seed, VERIF_REPLAY_DIR=wt + "_replays")
         r = subprocess.run([os.path.join(here, "check"), c, "--tier", a.tier, "--no-evidence"], env=env, capture_output=True, text=True)
         lines = [l for l in r.stdout.splitlines() if l.startswith(("VIOLATION", "  bucket", "HARNESS", c))]
         print(f"[{c}] exit={r.returncode}  " + " | ".join(lines[:4])[:600])
@@ -50,4 +50,5 @@ try:
 finally:
     if not a.keep:
         subprocess.run(["git", "-C", "/repo", "worktree", "remove", "--force", wt])
+        shutil.rmtree(wt + "_replays", ignore_errors=True)
 sys.exit(0 if ok_all else 1)
